@@ -698,7 +698,7 @@ def mutate(spec, rng, seed_tag):
         "mismatch_clip", "drop_annotation", "add_annotation",
         "split_match", "consistent_delete", "reorder", "dup_event_ref",
         "swap_event", "swap_event_and_match", "retarget_match",
-        "extra_one_sided",
+        "extra_one_sided", "same_match_twice",
         "number", "clip_times", "task_drop", "task_orphan", "identity",
     ]
     name = rng.choice(ops)
@@ -844,6 +844,13 @@ def mutate(spec, rng, seed_tag):
                     m = dict(s["matches"][j])
                     m[mside] = new
                     e["matches"][k] = new_match(m)
+        return ce_target(i)
+    if name == "same_match_twice" and ces_m:
+        # the very same match (same identifier) listed twice
+        i = rng.choice(ces_m)
+        e = s["clip_evaluations"][i]
+        e["matches"].insert(rng.randrange(len(e["matches"]) + 1),
+                            rng.choice(e["matches"]))
         return ce_target(i)
     if name == "retarget_match" and ces_m:
         # one match is pointed at the event another match already mentions:
